@@ -173,11 +173,17 @@ def c06(v: View):
 def c05(v: View):
     out = []
     for k, j in v.jobs.items():
-        if not v.committed(j):
-            continue
         b = j['batch_id']
         ps = [v.jobs.get((b, p)) for p in v.parents.get(k, ())]
         known = [p for p in ps if p is not None]
+        if not v.committed(j):
+            # gating holds for jobs of an uncommitted update as well: whatever readies them early (itself a recorded C41
+            # finding) does so only once every parent has finished
+            if j['state'] != 'Pending':
+                live = [p['job_id'] for p in known if p['state'] not in TERMINAL]
+                if live:
+                    out.append(('ready-before-parents-done', f'job {k} (update not committed) is {j["state"]} while parents {live} are not terminal', {'job': list(k), 'parents': live, 'uncommitted': True}))
+            continue
         if j['state'] != 'Pending':
             live = [p['job_id'] for p in known if p['state'] not in TERMINAL]
             if live:
